@@ -580,6 +580,17 @@ def check_state(w: World, tier, sync_only=False):
         mn, _pl = mpaths[p]
         if label_of.get(id(o)) != mn.label:
             viols.append((f"modeldiff/object", p, f"{p} holds object #{label_of.get(id(o))}, model expects #{mn.label}"))
+    # I8 (the converse of I6; "deleted members are gone"): whatever an object of the tree lists among its aliases is the alias that is
+    # attached at that path now -- not one that was deleted or displaced since
+    for p, (o, cont) in real.items():
+        if isinstance(o, g.Alias):
+            continue
+        for apath, al in list(o.aliases.items()):
+            if w.used_retarget and isinstance(al._target, g.Alias):
+                continue  # (same waiver as I6: the table of the FINAL target is not maintained when an intermediate alias is re-targeted by hand)
+            if real.get(apath, (None, None))[0] is not al:
+                state = "deleted or displaced" if all(x[0] is not al for x in real.values()) else "attached elsewhere"
+                viols.append(("inv/I8-dead-backref", p, f"{p}.aliases[{apath!r}] is an alias that is not the member at that path ({state})"))
     for p, (o, cont) in real.items():
         is_alias = isinstance(o, g.Alias)
         # I1 parent is the container
